@@ -33,7 +33,18 @@ func (s *vfSim) vfDumpTrace() {
 		s.res.mu.Unlock()
 	}()
 	kinds := []string{"W", "D", "X", "I"}
+	s.mu.Lock()
+	hooks := append([]*vfHookEv(nil), s.hookLog...)
+	s.mu.Unlock()
+	hi := 0
 	for _, e := range s.net.events() {
+		for hi < len(hooks) && hooks[hi].Seq < e.Seq {
+			h := hooks[hi]
+			hi++
+			if h.Ev == vfEvRTTSample || h.Ev == vfEvRTTSampleHB || h.Ev == vfEvT3After || h.Ev == vfEvFRAfter {
+				fmt.Fprintf(f, "%6d %12v H%d ev=%d tsn=%d nSent=%d age=%v cwnd=%d srtt=%.0f rto=%.0f\n", h.Seq, h.T, h.Side, h.Ev, h.TSN, h.NSent, h.Age, h.Snap.CWND, h.Snap.SRTT, h.Snap.RTO)
+			}
+		}
 		if e.Pkt == nil {
 			e.Pkt = vfDecode(e.Raw)
 		}
@@ -53,7 +64,7 @@ func (s *vfSim) vfDumpTrace() {
 		}
 		sn := ""
 		if e.Snap != nil {
-			sn = fmt.Sprintf(" [st=%d cwnd=%d rwnd=%d infl=%d/%d pend=%d cum=%d peerLast=%d credit=%d]", e.Snap.State, e.Snap.CWND, e.Snap.RWND, e.Snap.InflightN, e.Snap.InflightB, e.Snap.PendingN, e.Snap.CumAck, e.Snap.PeerLastTSN, e.Snap.Credit)
+			sn = fmt.Sprintf(" [st=%d cwnd=%d rwnd=%d infl=%d/%d pend=%d cum=%d peerLast=%d credit=%d srtt=%.0f rto=%.0f t3=%v]", e.Snap.State, e.Snap.CWND, e.Snap.RWND, e.Snap.InflightN, e.Snap.InflightB, e.Snap.PendingN, e.Snap.CumAck, e.Snap.PeerLastTSN, e.Snap.Credit, e.Snap.SRTT, e.Snap.RTO, e.Snap.T3Running)
 		}
 		fmt.Fprintf(f, "%6d %12v %s%d%s%s\n", e.Seq, e.T, kinds[e.Kind], e.Side, sb.String(), sn)
 	}
